@@ -3,8 +3,10 @@
     the root to a leaf passes the same number of black nodes (root colour unconstrained, as in the
     code).  [bst]: the in-order key list is strictly increasing. *)
 From Coq Require Import List NArith ZArith.
+Import ListNotations.
 Require Import ITree.Model.Common ITree.Model.RBTree ITree.Model.MapModel ITree.Spec.MapSpec.
 Require Import ITree.Proofs.RBElems ITree.Proofs.RBInv ITree.Proofs.MapProofs ITree.Proofs.MapTheorems.
+Require ITree.Model.KeyModel ITree.Proofs.KeyListProofs ITree.Proofs.KeyTheorems.
 
 (* insertion (the shared core of MapTree / SetTree / KeyExpTree::insert) keeps red-black validity *)
 Theorem C02_insert_rb : forall (ent: Type) (key_of: ent -> Z) (t: tree ent) (slot: N) (e: ent),
@@ -34,3 +36,16 @@ Theorem C02_map : forall (cap: N) (s: mstate), reachable cap s ->
   rbi ment (root s) /\ bst ment mkey (root s) /\ List.NoDup (slots ment (root s)) /\
   (height ment (root s) <= 2 * Nat.log2 (size ment (root s) + 1) + 1)%nat.
 Proof. exact map_rb_bst. Qed.
+
+(* expiring-key tree: in every state reached by a valid history (inserts and queries that lazily
+   remove expired entries while descending, clear) the tree is a valid red-black search tree with
+   distinct slots and logarithmic height *)
+Theorem C02_key : forall (cap: N) (h: list KeyModel.kop) (s: KeyModel.kstate) (outs: list KeyModel.kout),
+  KeyListProofs.kvalid_hist ([], None) h -> KeyModel.k_run (KeyModel.k_new cap) h = Ret (s, outs) ->
+  rbi KeyModel.kent (KeyModel.kroot s) /\ bst KeyModel.kent KeyModel.kk (KeyModel.kroot s) /\
+  List.NoDup (slots KeyModel.kent (KeyModel.kroot s)) /\
+  (height KeyModel.kent (KeyModel.kroot s) <= 2 * Nat.log2 (size KeyModel.kent (KeyModel.kroot s) + 1) + 1)%nat.
+Proof.
+  intros cap h s outs V Hr. destruct (KeyTheorems.keytree_rb_bst cap h s outs V Hr) as (A & B & C & D & _).
+  repeat split; assumption.
+Qed.
